@@ -157,10 +157,10 @@ def run(repo, seed, tier):
             for prior in itertools.product(forms, repeat=k):
                 for last in last_forms(params):
                     cases.append((params, list(prior), last))
-    if tier == 'quick':
-        cases = [c for i, c in enumerate(cases) if (i + seed) % 3 == 0]
-    else:
-        cases = [c for i, c in enumerate(cases) if (i + seed) % 2 == 0]
+    # a seeded random sample (a stride would always pick the same innermost loop values)
+    import random
+    rnd = random.Random(1000 + seed)
+    cases = rnd.sample(cases, len(cases) // (3 if tier == 'quick' else 2))
     with mp.get_context('fork').Pool(min(16, os.cpu_count() or 4), initializer=_init_worker) as pool:
         results = pool.map(check_case, cases, chunksize=16)
     evaluations = sum(r[0] for r in results)
